@@ -525,6 +525,15 @@ theorem orowan_sign (hJ : 0 < J) (hG : 0 < G) (hb : 0 < b) (hLs : 0 < Ls)
   apply mul_neg_of_pos_of_neg _ hlog
   exact div_pos (mul_pos (mul_pos hJ hG) hb) (mul_pos (mul_pos (mul_pos two_pos hpi) hsq) hLs)
 
+/-- … and non-negative for 2r ≥ ri (log ≥ 0): in the regular regime the clip changes nothing -/
+theorem orowan_nonneg (hJ : 0 < J) (hG : 0 < G) (hb : 0 < b) (hLs : 0 < Ls)
+    (hpi : 0 < (Trans.pi : α)) (hsq : 0 < Trans.sqrt ((1 : α) - nu))
+    (hlog : 0 ≤ Trans.log ((2 : α) * r / ri)) :
+    0 ≤ sf_orowan G b nu ri theta psi J eps Gp w1 w2 yAPB s beta V ySFM ySFP bp gamma r Ls r0 := by
+  simp only [sf_orowan]
+  apply mul_nonneg _ hlog
+  exact (div_pos (mul_pos (mul_pos hJ hG) hb) (mul_pos (mul_pos (mul_pos two_pos hpi) hsq) hLs)).le
+
 end limits
 
 /-! ## the atoms over ℝ (non-vacuity of the hypotheses above) -/
@@ -573,6 +582,14 @@ theorem orowan_negative_subcore (G b nu ri theta psi J eps Gp w1 w2 yAPB s beta 
   apply Real.log_neg
   · exact div_pos (by linarith) (by linarith)
   · rw [div_lt_one (by linarith)]; exact hri
+
+theorem orowan_nonneg_above_core (G b nu ri theta psi J eps Gp w1 w2 yAPB s beta V ySFM ySFP bp gamma r Ls r0 : ℝ)
+    (hJ : 0 < J) (hG : 0 < G) (hb : 0 < b) (hLs : 0 < Ls) (hnu : nu < 1)
+    (hri0 : 0 < ri) (hri : ri ≤ 2 * r) :
+    0 ≤ sf_orowan G b nu ri theta psi J eps Gp w1 w2 yAPB s beta V ySFM ySFP bp gamma r Ls r0 := by
+  apply orowan_nonneg G b nu ri theta psi J eps Gp w1 w2 yAPB s beta V ySFM ySFP bp gamma r Ls r0 hJ hG hb hLs Real.pi_pos (Real.sqrt_pos.mpr (by linarith))
+  apply Real.log_nonneg
+  rw [one_le_div hri0]; exact hri
 
 end real
 
